@@ -6,6 +6,8 @@
 (*  distance    c, den, res = <<k, exact>> per vertex (value k/den, exact = within 1e-9) *)
 (*  interpolate c, l, r, sn, sd, den, res = << <<kx, ky, exact>> center, right, left >>   *)
 (*  merge       a, b (lanes [l, c, r]), res = [l, c, r (integer vertices), ex], rlen      *)
+(*              (the lanelet a merge returns is a lanelet: the driver follows each merge  *)
+(*              with distance / interpolate events on it, judged against its own vertices)*)
 (*  succ_routes / pred_routes   succ (successor lists by id), len, start, range, res      *)
 (* st = "ok" | "timeout" | "exc:<Type>".                                                 *)
 EXTENDS LaneletGeom, IOUtils
@@ -26,6 +28,8 @@ DistanceClause(e) ==
   ELSE IF e.res[1] # <<0, 1>> THEN "C20.CumStart"
   ELSE IF \E i \in 1..Len(e.res) - 1 : e.res[i][1] > e.res[i + 1][1] THEN "C20.CumMonotone"
   ELSE IF Len(e.res) # Len(e.c) \/ Last(e.res) # <<Length(e.c) * e.den, 1>> THEN "C20.CumEnd"
+  \* "the cumulative center-line distance": entry i is the arc length of the center line up to vertex i
+  ELSE IF \E i \in 1..Len(e.c) : e.res[i] # <<Cum(e.c)[i] * e.den, 1>> THEN "C20.CumValues"
   ELSE ""
 
 InterpolateClause(e) ==
